@@ -2046,3 +2046,37 @@ def gen_coll_matrix():
     return ('collmatrix: statements of Collective.site_pair_count_matrix (labels of the four sites, index of the two label pairs, += 1), of '
             'site_pair_count_matrix_labels (every pair of labels once) and of the coll_jumps bookkeeping; the matrix counts each collective pair in exactly the cell of '
             'its two label pairs and sums to the number of collective pairs (gen_matrix_total)', ok, 'ok' if ok else log[-800:])
+
+
+# ---------------------------------------------------------------- unit: shape of the frame-0 matching of Orientations (C18)
+def gen_bond_match_shape():
+    """Statement-level check: the distance table is lattice.get_all_distances between the base positions of the centre and satellite selections, the cut-off is
+    1.5 x the global minimum, and each centre is matched with the first four satellites below it (the structure Model.C18's matching transcribes)."""
+    try:
+        tree = _parse('orientations.py')
+        d = _find_func(tree, 'Orientations', '_distances')
+        src = [ast.unparse(s) for s in _stmts(d)]
+        want = ['central_start_coord = self._trajectory_cent.base_positions', 'assert central_start_coord is not None',
+                'satellite_start_coord = self._trajectory_sat.base_positions', 'assert satellite_start_coord is not None', 'lattice = self.trajectory.get_lattice()',
+                'distance = np.array([[lattice.get_all_distances(central, satellite) for satellite in satellite_start_coord] for central in central_start_coord])',
+                'return distance']
+        if src != want:
+            k = next((i for i, (a, b) in enumerate(zip(src, want)) if a != b), min(len(src), len(want)))
+            raise Unsupported('_distances statement %d: %s' % (k, src[k][:160] if k < len(src) else '<missing>'))
+        m = _find_func(tree, 'Orientations', '_matching_matrix')
+        st = _stmts(m)
+        src = [ast.unparse(s) for s in st]
+        want = ['match_criteria = 1.5 * np.min(distance)', 'distance_match = np.where(distance < match_criteria, distance, 0)',
+                'matching_matrix = np.zeros((len(frac_coord_cent[0, :, 0]), 4), dtype=int)',
+                'for k in range(len(frac_coord_cent[0, :, 0])):\n    matching_matrix[k, :] = np.where(distance_match[k, :] != 0)[0][:4]', 'return matching_matrix']
+        if src != want:
+            k = next((i for i, (a, b) in enumerate(zip(src, want)) if a != b), min(len(src), len(want)))
+            raise Unsupported('_matching_matrix statement %d: %s' % (k, src[k][:160] if k < len(src) else '<missing>'))
+        for prop, sel in (('_trajectory_cent', 'self.center_type'), ('_trajectory_sat', 'self.satellite_type')):
+            g = [ast.unparse(s) for s in _stmts(_find_func(tree, 'Orientations', prop))]
+            if g != [f'return self.trajectory.filter({sel})']:
+                raise Unsupported(f'{prop}: ' + ' | '.join(g)[:200])
+    except Unsupported as e:
+        return ('bondmatch', False, f'translator: unsupported {e}')
+    return ('bondmatch: statements of Orientations._distances (minimum-image distances between the first-frame positions of the two selections), _matching_matrix '
+            '(cut-off 1.5 x the smallest distance, first four satellites below it per centre) and the two selections are the ones the C18 oracle and model assume', True, 'ok')
